@@ -2207,6 +2207,23 @@ FROM (
                 for o in node.order_by
             )
             over_parts.append(f"ORDER BY {order_cols}")
+        elif node.window or node.op in (
+            tokens.FIRST_VALUE,
+            tokens.LAST_VALUE,
+            tokens.LAG,
+            tokens.LEAD,
+        ):
+            # VTL: an omitted order by means "the identifiers not in partition by". Without it a
+            # framed or positional window function follows the physical row order.
+            partitioned = set(partition_cols_list)
+            default_order = [
+                i for i in self._operand_identifier_names(node) if i not in partitioned
+            ]
+            if default_order:
+                order_cols = ", ".join(
+                    quote_name(self._resolve_udo_name(i)) for i in default_order
+                )
+                over_parts.append(f"ORDER BY {order_cols}")
         if node.window:
             order_is_date = False
             if node.order_by and self._current_dataset:
@@ -2227,6 +2244,11 @@ FROM (
             id_names = self._operand_identifier_names(node)
             excluded = set(listed)
             return [i for i in id_names if i not in excluded]
+        if not listed and node.partition_op is None and node.order_by:
+            # VTL: an omitted partition by means "the identifiers not in order by"
+            # (same default as Interpreter.visit_Analytic).
+            ordered = {o.component for o in node.order_by}
+            return [i for i in self._operand_identifier_names(node) if i not in ordered]
         return listed
 
     def _operand_identifier_names(self, node: AST.Analytic) -> List[str]:
